@@ -778,7 +778,14 @@ impl Printer {
                 }
             }
             Expr::Float(f) => {
-                let t = format!("{:?}", f.abs());
+                // Sylt has no literal with both a fraction and an exponent: positional notation where Rust would use one
+                let mut t = format!("{:?}", f.abs());
+                if t.contains('e') {
+                    t = format!("{}", f.abs());
+                    if !t.contains('.') {
+                        t.push_str(".0");
+                    }
+                }
                 if *f < 0.0 || (f.to_bits() >> 63) == 1 {
                     (format!("(-{})", t), 9)
                 } else {
